@@ -589,6 +589,40 @@ def run_proto(case):
     if any(a is b for a, b in zip(*rounds)):
         res.div(1, 'prototype-not-fresh', 'iterating a prototype twice '
                 'yielded the same instance', 'new components', 'reused')
+    # ---- an init_methods entry that fails: the component is "built by the
+    # type's entry if there is one" - the entry's own exception comes out of
+    # the iteration, no other source is tried behind its back
+    if comp_types and not res.divs:
+        victim = comp_types[len(case['types']) % len(comp_types)]
+        exc_type = [KeyError, LookupError, IndexError, AttributeError,
+                    TypeError][len(case['types']) % 5]
+        fault = exc_type('the entry failed')
+        tried = []
+
+        def failing(*args):
+            raise fault
+
+        def fallback(self, comp_type):
+            tried.append(comp_type)
+            return comp_type()
+        ns = {'component_types': (victim,), 'init_prefix': 'mk_',
+              'init_methods': {victim: failing},
+              f'mk_{victim.__name__}': fallback}
+        Failing = type('Failing', (desper.Prototype,), ns)
+        res.stats['failing_entries_checked'] += 1
+        try:
+            got = list(Failing())
+        except Exception as ex:
+            if ex is not fault:
+                res.div(2, 'prototype-entry-error-replaced', 'an '
+                        'init_methods entry raised; another exception came '
+                        'out of the iteration', repr(fault), repr(ex))
+        else:
+            res.div(2, 'prototype-entry-error-swallowed', 'an init_methods '
+                    f'entry raised {exc_type.__name__}; the iteration went '
+                    'on and built the component from another source',
+                    repr(fault), [type(c).__name__ for c in got],
+                    fallback_called=bool(tried))
     res.nontrivial = competing
     res.tags['proto_sources'].add(
         tuple(sorted({s for t in case['types'] for s in t['sources']})))
